@@ -153,6 +153,93 @@ func (s State) set(i int, v int8) State {
 	return State(b)
 }
 
+// curProg is the loaded program (set by Load); the path-state engine uses it to summarise guard helpers.
+var curProg *Prog
+
+// guardFact: a normalised condition of a helper and the truth value it has on every success return.
+type guardFact struct {
+	rel   *Term
+	truth bool
+}
+
+var guardFactsMemo = map[*ssa.Function][]guardFact{}
+var guardFactsBusy = map[*ssa.Function]bool{}
+
+// guardFacts summarises a helper that returns an error: the branch conditions whose value is the same
+// (known) on every success return. `if err := k.requireX(a); err != nil { return err }` then establishes
+// those facts, with the helper's parameters replaced by the caller's arguments.
+func guardFacts(fn *ssa.Function) []guardFact {
+	if f, ok := guardFactsMemo[fn]; ok {
+		return f
+	}
+	if guardFactsBusy[fn] || fn == nil || len(fn.Blocks) == 0 || len(fn.Blocks) > 40 || errorResultIndex(fn) < 0 {
+		return nil
+	}
+	guardFactsBusy[fn] = true
+	defer func() { guardFactsBusy[fn] = false }()
+	tm := NewTermer()
+	var rels []*Term
+	seen := map[string]bool{}
+	for _, b := range fn.Blocks {
+		if len(b.Instrs) == 0 {
+			continue
+		}
+		if iff, ok := b.Instrs[len(b.Instrs)-1].(*ssa.If); ok {
+			rel, _ := Cond(tm.Of(iff.Cond))
+			if k := rel.String(); !seen[k] && len(rels) < 10 {
+				seen[k] = true
+				rels = append(rels, rel)
+			}
+		}
+	}
+	var atoms []Atom
+	for i, rel := range rels {
+		key := rel.String()
+		atoms = append(atoms, Atom{Name: fmt.Sprintf("g%d", i), Cond: func(r *Term) (bool, bool) { return r.String() == key, true }})
+	}
+	var out []guardFact
+	if len(atoms) > 0 {
+		ps := analyzePaths(fn, atoms, false)
+		rets := SuccessReturns(fn)
+		for i, rel := range rels {
+			val := int8(-1)
+			okAll := len(rets) > 0
+			for _, ret := range rets {
+				for _, st := range ps.At(ret) {
+					v := int8(st[i])
+					if v == U || (val != -1 && v != val) {
+						okAll = false
+					}
+					val = v
+				}
+			}
+			if okAll && (val == T || val == F) {
+				out = append(out, guardFact{rel, val == T})
+			}
+		}
+	}
+	guardFactsMemo[fn] = out
+	return out
+}
+
+// substParams replaces the helper's parameters in t by the caller's argument terms.
+func substParams(t *Term, args []*Term) *Term {
+	if strings.HasPrefix(t.Op, "param:") {
+		var n int
+		if _, err := fmt.Sscanf(t.Op, "param:%d:", &n); err == nil && n < len(args) {
+			return args[n]
+		}
+	}
+	if len(t.Args) == 0 {
+		return t
+	}
+	c := &Term{Op: t.Op, V: t.V}
+	for _, a := range t.Args {
+		c.Args = append(c.Args, substParams(a, args))
+	}
+	return c
+}
+
 type PathStates struct {
 	Fn    *ssa.Function
 	Atoms []Atom
@@ -163,7 +250,9 @@ type PathStates struct {
 	Matched map[string][]string
 }
 
-func AnalyzePaths(fn *ssa.Function, atoms []Atom) *PathStates {
+func AnalyzePaths(fn *ssa.Function, atoms []Atom) *PathStates { return analyzePaths(fn, atoms, true) }
+
+func analyzePaths(fn *ssa.Function, atoms []Atom, helpers bool) *PathStates {
 	ps := &PathStates{Fn: fn, Atoms: atoms, tm: NewTermer(), in: map[*ssa.BasicBlock]map[State]bool{}, Matched: map[string][]string{}}
 	if len(fn.Blocks) == 0 {
 		return ps
@@ -182,6 +271,10 @@ func AnalyzePaths(fn *ssa.Function, atoms []Atom) *PathStates {
 	type bm struct {
 		atom int
 		pol  bool
+		// one-sided entries come from a guard helper: only the success edge (succIdx) sets the atom to val
+		oneSided bool
+		succIdx  int
+		val      int8
 	}
 	branch := map[*ssa.BasicBlock][]bm{}
 	for _, b := range fn.Blocks {
@@ -195,8 +288,47 @@ func AnalyzePaths(fn *ssa.Function, atoms []Atom) *PathStates {
 					continue
 				}
 				if m, atw := a.Cond(rel); m {
-					branch[b] = append(branch[b], bm{i, pol == atw})
+					branch[b] = append(branch[b], bm{atom: i, pol: pol == atw})
 					ps.Matched[a.Name] = append(ps.Matched[a.Name], rel.String())
+				}
+			}
+			// `helper(args) == nil`: the facts the helper guarantees on success, in the caller's terms
+			if helpers && curProg != nil && rel.Op == "==" && len(rel.Args) == 2 {
+				for _, pair := range [][2]*Term{{rel.Args[0], rel.Args[1]}, {rel.Args[1], rel.Args[0]}} {
+					call, other := pair[0], pair[1]
+					if other.Op != "const:nil" {
+						continue
+					}
+					if strings.HasPrefix(call.Op, "ext:") && len(call.Args) == 1 {
+						call = call.Args[0]
+					}
+					if !strings.HasPrefix(call.Op, "call:") {
+						continue
+					}
+					hf := curProg.Func(strings.TrimPrefix(call.Op, "call:"))
+					if hf == nil || hf == fn {
+						continue
+					}
+					succIdx := 1
+					if pol {
+						succIdx = 0
+					}
+					for _, f := range guardFacts(hf) {
+						frel := substParams(f.rel, call.Args)
+						for i, a := range atoms {
+							if a.Cond == nil {
+								continue
+							}
+							if m, atw := a.Cond(frel); m {
+								v := F
+								if f.truth == atw {
+									v = T
+								}
+								branch[b] = append(branch[b], bm{atom: i, oneSided: true, succIdx: succIdx, val: v})
+								ps.Matched[a.Name] = append(ps.Matched[a.Name], "via "+FuncName(hf)+": "+frel.String())
+							}
+						}
+					}
 				}
 			}
 		}
@@ -214,6 +346,12 @@ func AnalyzePaths(fn *ssa.Function, atoms []Atom) *PathStates {
 				ns := s
 				infeasible := false
 				for _, m := range branch[b] {
+					if m.oneSided {
+						if si == m.succIdx {
+							ns = ns.set(m.atom, m.val)
+						}
+						continue
+					}
 					val := F
 					if (si == 0) == m.pol {
 						val = T
